@@ -79,12 +79,30 @@ class NcchCheck(Check):
             seed_arg = bytes(x ^ 0x55 for x in desc['seed'])
         elif mode == 'noseed':
             seed_arg = None
+        # a SIBLING content was opened first in this process: same program / partition id, same crypto flags and seed, but another
+        # signature (hence another KeyY) and other data - two contents of one DLC title, two builds of one content.  Whatever the
+        # library remembers about the first must not leak into the second
+        if case['seed'] % 2 == 0 and not assume:
+            sib = dict(desc, key_y=Rng(case['seed'] + 2).rbytes(16), rng=Rng(case['seed'] + 3))
+            try:
+                simg, _ = ncchbuild.build(sib)
+                srd = NCCHReader(io.BytesIO(simg), crypto=e.CryptoEngine(), seed=desc['seed'], closefd=False, load_sections=False)
+                for sec in (NCCHSection.ExtendedHeader, NCCHSection.ExeFS, NCCHSection.RomFS):
+                    try:
+                        srd.open_raw_section(sec).read(0x40)
+                    except Exception:  # noqa
+                        pass
+                srd.close()
+            except Exception:  # noqa
+                pass
+            envsetup.reset_seeddb()      # the seed database is process-wide by design; "seed not known" cases need it empty again
         base = io.BytesIO(file_bytes)
         base.seek(start)
         eng = e.CryptoEngine()
         mon, key = [], None
         outs, models = [], []
-        info_d = {'method:%d' % desc['crypto_method']: 1, 'mode:' + mode: 1, 'seeded:%d' % (desc['seed'] is not None): 1,
+        info_d = {'sibling content opened first:%s' % (case['seed'] % 2 == 0 and not assume): 1,
+                  'method:%d' % desc['crypto_method']: 1, 'mode:' + mode: 1, 'seeded:%d' % (desc['seed'] is not None): 1,
                   'fixed:%d' % desc['fixed_key']: 1, 'nocrypto:%d' % desc['no_crypto']: 1}
         rd = None
         try:
